@@ -202,6 +202,45 @@ pub fn run(ctx: &Ctx) -> PropResult {
         judge_read(rec, &st, false);
         judge_read(rec, &st, true);
     }));
+    // fractions as binary floating point leaves them: a few digits, then a long run of nines or zeros crossing the ninth
+    // digit, then a short tail (.29999999999999997, .30000000000000004): reduced to nanoseconds means cut, not rounded
+    wls.push(Workload::cases("read_side_fraction_digit_runs", ctx.count(40_000, 1_000_000), |rec, idx, rng| {
+        let mut st = gen_valid(rng);
+        let head = rng.below(10) as usize;
+        let run = 1 + rng.below(30) as usize;
+        let tail = rng.below(4) as usize;
+        let mut f = String::new();
+        for _ in 0..head {
+            f.push((b'0' + rng.below(10) as u8) as char);
+        }
+        let c = if rng.chance(2, 3) { '9' } else { '0' };
+        for _ in 0..run {
+            f.push(c);
+        }
+        for _ in 0..tail {
+            f.push((b'0' + rng.below(10) as u8) as char);
+        }
+        st.frac = f;
+        rec.bin("read/fraction-digit-run");
+        judge_read(rec, &st, idx % 3 == 0);
+    }));
+    // boundary grid: month, day, hour, minute and second each from {minimum, maximum, maximum + 1, typical}: an
+    // out-of-range value in otherwise minimal company (24:00:00, 23:60:00, 00:00:61 …) as well as in random company
+    wls.push(Workload::cases("read_side_boundary_grid", 4 * 4 * 4 * 4 * 4 * 3, |rec, idx, _| {
+        let mut x = idx;
+        let month = [1u32, 12, 13, 6][(x % 4) as usize]; x /= 4;
+        let day = [1u32, 28, 32, 15][(x % 4) as usize]; x /= 4;
+        let hour = [0u32, 23, 24, 11][(x % 4) as usize]; x /= 4;
+        let minute = [0u32, 59, 60, 30][(x % 4) as usize]; x /= 4;
+        let second = [0u32, 59, 61, 20][(x % 4) as usize]; x /= 4;
+        let offset = match x % 3 { 0 => None, 1 => Some(('+', 0, 0)), _ => Some(('-', 8, 0)) };
+        let st = Stamp { year: 2022, month, day, hour, minute, second, frac: if idx % 2 == 0 { String::new() } else { "000".into() }, offset };
+        if field_out_of_range(&st) {
+            judge_reject(rec, &st, "boundary-grid");
+        } else if st.fields_valid() {
+            judge_read(rec, &st, idx % 2 == 0);
+        }
+    }));
     wls.push(Workload::cases("read_side_random", ctx.count(200_000, 10_000_000), |rec, idx, rng| {
         let st = gen_valid(rng);
         judge_read(rec, &st, idx % 4 == 0);
@@ -282,12 +321,12 @@ pub fn run(ctx: &Ctx) -> PropResult {
     wls.push(Workload::cases("offset_local_under_a_changing_zone", ctx.count(3_000, 30_000), |rec, _, rng| super::localzone::zone_switch_case(rec, rng, "C13")));
     let out = run_workloads(ctx, wls);
     let mut meta = PropMeta::default();
-    meta.rule = "write: local instants in years 0001–9999 (both ends ±2 d, month ends, second/centisecond boundaries, uniform) x whole-minute offsets (0, ±1 min, ±23:59, half/quarter hours, uniform) x 5 precisions; the output must be accepted by a hand-written recogniser of the RFC 3339 date-time ABNF, carry exactly the precision's fraction digits, and denote the value's instant truncated to the precision and its offset. read: ABNF-generated timestamps (valid calendar date, every fraction length 0..=40 x {all 0, all 9, random}, Z / ±hh:mm incl. -00:00 and ±23:59) through parse_rfc3339 and FromStr — instant, nanoseconds (fraction truncated to 9 digits) and offset must match the reference reader; single-field mutations (month 00/13+, day 00/32+/> month length, Feb 29 in a common year, hour 24+, minute 60+, offset hour 24+, offset minute 60+) must be rejected. Rejection is read through parse_rfc3339 AND FromStr. Several fields out of range at once (2–4 mutations, also on year 0000); a sentinel grid of every field from {all zeros, typical, all nines} x zones x fractions (the SQL zero date 0000-00-00T00:00:00Z … 9999-99-99T99:99:99Z); second 60 where the UTC reading is not 23:59:60 (a leap second under no reading; on the 27 leap-second days and random days) and seconds 61+ must be refused. Not judged: second 60 at 23:59 UTC, lower-case t/z, wrong separators, year 0000 with all other fields in range. Every case non-trivial; distinct by hash of the text / (value, offset, precision). Sub-second values next to powers of ten on the write side; format_rfc3339 of Offset::Local values under a changing hooked zone.".into();
+    meta.rule = "write: local instants in years 0001–9999 (both ends ±2 d, month ends, second/centisecond boundaries, uniform) x whole-minute offsets (0, ±1 min, ±23:59, half/quarter hours, uniform) x 5 precisions; the output must be accepted by a hand-written recogniser of the RFC 3339 date-time ABNF, carry exactly the precision's fraction digits, and denote the value's instant truncated to the precision and its offset. read: ABNF-generated timestamps (valid calendar date, every fraction length 0..=40 x {all 0, all 9, random}, Z / ±hh:mm incl. -00:00 and ±23:59) through parse_rfc3339 and FromStr — instant, nanoseconds (fraction truncated to 9 digits) and offset must match the reference reader; single-field mutations (month 00/13+, day 00/32+/> month length, Feb 29 in a common year, hour 24+, minute 60+, offset hour 24+, offset minute 60+) must be rejected. Rejection is read through parse_rfc3339 AND FromStr. Several fields out of range at once (2–4 mutations, also on year 0000); a sentinel grid of every field from {all zeros, typical, all nines} x zones x fractions (the SQL zero date 0000-00-00T00:00:00Z … 9999-99-99T99:99:99Z); second 60 where the UTC reading is not 23:59:60 (a leap second under no reading; on the 27 leap-second days and random days) and seconds 61+ must be refused. Fractions with long runs of nines / zeros crossing the ninth digit (cut, not rounded); a {min, max, max+1, typical}^5 grid of month, day, hour, minute, second (24:00:00 and the like). Not judged: second 60 at 23:59 UTC, lower-case t/z, wrong separators, year 0000 with all other fields in range. Every case non-trivial; distinct by hash of the text / (value, offset, precision). Sub-second values next to powers of ten on the write side; format_rfc3339 of Offset::Local values under a changing hooked zone.".into();
     meta.required_bins = vec![
         "local-twin/zone-switch-judged",
         "write/Seconds", "write/Centis", "write/Millis", "write/Micros", "write/Nanos", "write/offset-zero", "write/offset-negative", "write/offset-positive",
         "read/no-fraction", "read/fraction-1..8", "read/fraction-9", "read/fraction-10..19", "read/fraction-20..40", "read/Z", "read/-00:00", "read/negative-offset", "read/positive-offset", "read/utc-midnight-negative-offset", "read/utc-midnight-positive-offset",
-        "reject/month=00", "reject/month>12", "reject/day=00", "reject/day>31", "reject/day>month-length", "reject/hour>=24", "reject/minute>=60", "reject/offset-hour>=24", "reject/offset-minute>=60", "reject/feb29-common-year", "reject/several-fields", "reject/sentinel-grid", "reject/second>60", "reject/second=60-not-at-23:59-UTC",
+        "reject/month=00", "reject/month>12", "reject/day=00", "reject/day>31", "reject/day>month-length", "reject/hour>=24", "reject/minute>=60", "reject/offset-hour>=24", "reject/offset-minute>=60", "reject/feb29-common-year", "reject/several-fields", "reject/boundary-grid", "read/fraction-digit-run", "reject/sentinel-grid", "reject/second>60", "reject/second=60-not-at-23:59-UTC",
     ];
     meta.assumptions = vec!["the reference reader/recogniser in model/rfc3339.rs is written from the RFC 3339 ABNF".into()];
     Ok((meta, out))
